@@ -119,6 +119,31 @@ CHECKS = {
           "conformance obligation). Bounds: quick 2x1 exhaustive, 1x1 with re-entrant send exhaustive, 2x1 with re-entrant send and <=3 pre-emptions; "
           "thorough adds 2x1 re-entrant exhaustive, 2x2 exhaustive and 3x1 with <=3 pre-emptions. More threads/messages and write failures are outside."),
     technique="bounded model checking over all schedules (AST -> CFG -> bit-vector transition relation, z3 SAT) + schedule replay on real threads"),
+ "C13": dict(
+    category="model_checking", design_ref="DESIGN.md sections 2.3 and 4 (C13)", engine="engine-B",
+    text=("Schedule-symbolic bounded model checking of the real serve/_dispatch/_seq_request_callback/AsyncResult.wait/__call__/"
+          "BgServingThread._bg_server: their ASTs are lowered to statement-level CFGs at every run, executed with a per-thread call stack over a "
+          "bit-vector model of the receive lock, the condition variable, the inbox, the callback table and the result fields, against a peer that "
+          "may put any outstanding reply on the wire at any step. z3 decides over all schedules within the bound that no frame is dispatched twice, "
+          "no request completes with another request's reply or without its own, no reply sits in the inbox while every thread sleeps un-notified, "
+          "and nobody-can-move states only occur as the C14 stall. Counterexample schedules are replayed on real threads (sys.settrace gate, "
+          "gated Condition, virtual-time channel)."),
+    note=("Depth-bounded: all interleavings of the first 60 statement-steps (a complete hand-off by every thread takes about 45); the unwinding "
+          "assertion is NOT established and the evidence says so. Quick: 1 waiter + background thread, <=1 pre-emption; thorough: the same "
+          "exhaustively and 2 waiters with <=2 pre-emptions. Partial-order reduction (no switch before thread-local statements). Timeouts never "
+          "fire in the model; itertools.count atomicity, incoming requests and EOF are outside."),
+    technique="bounded model checking over schedules (AST -> CFG -> bit-vector transition relation, z3 SAT, parallel cubes) + replay on real threads"),
+ "C14": dict(
+    category="model_checking", design_ref="DESIGN.md sections 2.3 and 4 (C14)", engine="engine-B",
+    text=("Same model as C13; the query is the reachability of a stall state: the waiter's own result is ready while the waiter stands at the "
+          "blocking receive statement with an empty inbox (it could then only leave by its timeout or unrelated traffic). z3 finds the schedule in "
+          "about half a minute -- the waiter re-enters serve() between the other thread's notify_all() and _dispatch() -- and the schedule is "
+          "replayed deterministically on real threads with the real code, where a virtual-time channel records that the waiter would block. This is "
+          "a genuine defect of the pinned tree, recorded as a known finding (no small safe repair); a stall of any other shape would still fail the check."),
+    note=("Trusted as for C13. 1 waiter + 1 background serving thread (2 serve iterations) + peer, 60 statement-steps, <=2 pre-emptions quick / "
+          "exhaustive thorough. Only the robust stall shape (blocked in the receive statement holding the receive lock) is queried; the "
+          "asleep-in-Condition.wait shape would be an artefact of cutting the background thread off."),
+    technique="bounded model checking over schedules + deterministic replay of the counterexample schedule on real threads"),
 }
 
 NOT_YET = {}
